@@ -108,8 +108,20 @@ def FS.noFiles (fs : FS) : Bool :=
   fs.pckl == .absent && fs.cpckl == .absent && fs.pcklTmp == .absent && fs.cpcklTmp == .absent
 
 /-- can the node state be serialised: by `pickle`, only by `cloudpickle`, by neither -/
-inductive Content | ok | pickleFails | bothFail
+inductive Content
+  | ok | pickleFails | bothFail
+  -- a save asked for with the PER-CALL flag `cloudpickle_fallback=False` (the back end's default is True): only the
+  -- `pickle` attack is made.  Plainly picklable content behaves as `ok`; these are the two ways it fails:
+  | nfPickleFails      -- `pickle` cannot serialise the content (whatever cloudpickle could do): one failed attempt
+  | nfNotImportable    -- the node is not import-ready: `TypeNotFoundError` before anything is opened
   deriving DecidableEq, Repr
+
+/-- the save raises (no attack succeeds) -/
+def Content.fails : Content → Bool
+  | .bothFail => true
+  | .nfPickleFails => true
+  | .nfNotImportable => true
+  | _ => false
 
 /-- one file-system call -/
 inductive Step
@@ -157,6 +169,8 @@ def saveSteps (m : SaveMode) (c : Content) (cls : Cls) (ver : Nat) : List Step :
         attempt m .pckl .cpckl .pcklTmp false cls ver ++ attempt m .cpckl .pckl .cpcklTmp true cls ver
     | .bothFail =>
         attempt m .pckl .cpckl .pcklTmp false cls ver ++ attempt m .cpckl .pckl .cpcklTmp false cls ver
+    | .nfPickleFails => attempt m .pckl .cpckl .pcklTmp false cls ver
+    | .nfNotImportable => []
 
 /-- a save that runs to its end (normally or by raising): all steps, then the `finally` -/
 def saveFS (cfg : Cfg) (fs : FS) (c : Content) (cls : Cls) (ver : Nat) : FS :=
@@ -184,6 +198,17 @@ def storageLoad (fs : FS) : LoadRes :=
     | .empty => .corrupt
     | .torn => .corrupt
     | .absent => .notFound
+
+/-- `PickleStorage._load` called with the per-call flag `cloudpickle_fallback = fb` -/
+def storageLoadF (fb : Bool) (fs : FS) : LoadRes :=
+  match fs.pckl with
+  | .good c v => .ok c v
+  | .empty => .corrupt
+  | .torn => .corrupt
+  | .absent => if fb then storageLoad { fs with pckl := .absent } else .notFound
+
+/-- `PickleStorage._has_saved_content` called with the per-call flag -/
+def hasSavedF (fb : Bool) (fs : FS) : Bool := fs.pckl != .absent || (fb && fs.cpckl != .absent)
 
 /-- `PickleStorage._has_saved_content`: a file exists under one of the two FINAL names (whatever it holds);
 temporaries do not count -/
@@ -248,6 +273,24 @@ def nodeLoadBy (chk : ClassCheck) (n : NodeSt) (fs : FS) : NodeSt × NodeLoadRes
 /-- `Node.load` as it is -/
 def nodeLoad (n : NodeSt) (fs : FS) : NodeSt × NodeLoadRes := nodeLoadBy .identity n fs
 
+/-- a COMPOSITE node (Workflow / Macro, or a node sitting inside one): its state, and whether the children it has and
+the connections around it are still what they were -/
+structure Comp where
+  node     : NodeSt
+  attached : Bool
+  deriving DecidableEq, Repr
+
+/-- `Node.load` on a composite.  After reading the file the code (1) checks the class, (2) PREPARES the in-place load:
+releases the current children (`child._parent = None`, `child.disconnect()`) and remembers the connections to hand over,
+(3) `__setstate__`.  `lateCheck = false` is the code; `lateCheck = true` (NOT the code) does the check after (2). -/
+def compLoad (lateCheck : Bool) (c : Comp) (fs : FS) : Comp × NodeLoadRes :=
+  match storageLoad fs with
+  | .ok cl v =>
+    if cl.id == c.node.cls.id then (⟨⟨c.node.cls, v⟩, true⟩, .loaded v)
+    else (⟨c.node, c.attached && !lateCheck⟩, .classMismatch)
+  | .notFound => (c, .notFound)
+  | .corrupt => (c, .corrupt)
+
 structure World where
   fs   : FS
   node : NodeSt
@@ -273,7 +316,7 @@ inductive Res
 def step (cfg : Cfg) (w : World) : Op → World × Res
   | .save c v =>
     ({ fs := saveFS cfg w.fs c w.node.cls v, node := ⟨w.node.cls, v⟩ },
-      if c = .bothFail then .saveRaised else .saved)
+      if c.fails then .saveRaised else .saved)
   | .crash c v k =>
     ({ fs := crashFS cfg w.fs c w.node.cls v k, node := ⟨w.node.cls, 0⟩ }, .crashed)
   | .load =>
@@ -306,10 +349,8 @@ structure Promise where
 def Promise.init : Promise := ⟨none, []⟩
 
 def Promise.step (p : Promise) : Op → Promise
-  | .save .bothFail _ => p
-  | .save _ v => ⟨some v, []⟩
-  | .crash .bothFail _ _ => p
-  | .crash _ v _ => { p with inflight := v :: p.inflight }
+  | .save c v => if c.fails then p else ⟨some v, []⟩
+  | .crash c v _ => if c.fails then p else { p with inflight := v :: p.inflight }
   | .delete => ⟨none, []⟩
   | _ => p
 
@@ -323,7 +364,7 @@ def noFaultAfterGood (p : Promise) : List Op → Bool
   | [] => true
   | op :: r =>
     (match op with
-      | .save .bothFail _ => p.last.isNone
+      | .save c _ => !c.fails || p.last.isNone
       | .crash _ _ _ => p.last.isNone
       | _ => true) && noFaultAfterGood (p.step op) r
 
